@@ -71,6 +71,7 @@ type Engine struct {
 	usedLemmas  map[string]bool
 	rawIface    bool
 	modsCallee  *ssa.Function
+	curContract *Contract
 	globalFuncs map[*ssa.Global]*ssa.Function
 	allRefs   map[string]bool
 	refDeps   map[string][]string
@@ -397,6 +398,9 @@ func (e *Engine) Discharge() {
 					to = 2000 // a cover only has to be not refuted
 				}
 				o.Result = Solve(o.Query, to, "")
+				if os.Getenv("VERIF_DUMPALL") != "" && e.DumpDir != "" {
+					dumpQuery(e.DumpDir+"/all", fmt.Sprintf("%s.%p", strings.TrimPrefix(o.Name, e.curProp+"/"), o), o.Query)
+				}
 				if o.Result.Status != "unsat" && o.Kind != "cover" {
 					mu.Lock()
 					failed[o.Name]++
